@@ -955,7 +955,248 @@ def run_alias(case):
     return run, viols
 
 
+# ------------------------------------------------- caller-owned mutable arguments
+def aa_buffers(cls, sp, use_numpy):
+    """the caller's own mutable objects, exactly as a user would hold them"""
+    arr = (lambda x: np.array(x, dtype=float)) if use_numpy else (lambda x: [list(r) if isinstance(r, list) else r for r in x])
+    if cls == "Config":
+        return dict(
+            matrix=None if sp["matrix"] is None else arr(sp["matrix"]),
+            et=list(sp["et"]),
+            observables=[build_observable(o) for o in sp["observables"]],
+            extra=json.loads(json.dumps(sp["extra"])),
+        )
+    if cls == "Observable":
+        return dict(kind=sp["kind"], et=list(sp["et"]))
+    if cls == "StateRepr":
+        return dict(eig=list(sp["eigenstates"]), amps={k: cx(v) for k, v in sp["amplitudes"].items()})
+    if cls == "OperatorRepr":
+        return dict(
+            eig=list(sp["eigenstates"]),
+            n=sp["n_qudits"],
+            ops=[(cx(c), [({k: cx(v) for k, v in q.items()}, list(inds)) for q, inds in t]) for c, t in sp["operations"]],
+        )
+    if cls == "Layout":
+        return dict(coords=arr(sp["coordinates"]), slug=sp["slug"])
+    if cls == "DetuningMap":
+        return dict(coords=arr(sp["coords"]), weights=list(sp["weights"]), slug=sp["slug"])
+    if cls == "Register":
+        return dict(dim=sp["dim"], qubits={i: (np.array(c, dtype=float) if use_numpy else list(c)) for i, c in zip(sp["ids"], sp["coords"])})
+    if cls == "NoiseModel":
+        return dict(rates=list(sp["rates"]), opers=[(np.array(cx(o), dtype=complex) if use_numpy else cx(o)) for o in sp["opers"]])
+    if cls == "Device":
+        return dict(chans=[build_channel(c) for c in sp["chans"]], dmms=[build_channel(c) for c in sp["dmms"]], ids=[f"ch{i}" for i in range(len(sp["chans"]))])
+    return dict(dir=list(sp["dir"]), beams=list(sp["beams"]))
+
+
+def aa_build(cls, b):
+    """hands the caller's objects to the constructor without copying them"""
+    import pulser
+    import pulser.backend as pb
+
+    if cls == "Config":
+        kw = dict(observables=b["observables"], default_evaluation_times=b["et"], **b["extra"])
+        if b["matrix"] is not None:
+            kw["interaction_matrix"] = b["matrix"]
+        return pb.EmulationConfig(**kw)
+    if cls == "Observable":
+        k = dict(bitstrings=pb.BitStrings, occupation=pb.Occupation, energy=pb.Energy)[b["kind"]]
+        return k(evaluation_times=b["et"])
+    if cls == "StateRepr":
+        from pulser.backend.state import StateRepr
+
+        return StateRepr.from_state_amplitudes(eigenstates=b["eig"], amplitudes=b["amps"])
+    if cls == "OperatorRepr":
+        from pulser.backend.operator import OperatorRepr
+
+        return OperatorRepr.from_operator_repr(eigenstates=b["eig"], n_qudits=b["n"], operations=b["ops"])
+    if cls == "Layout":
+        from pulser.register.register_layout import RegisterLayout
+
+        return RegisterLayout(b["coords"], slug=b["slug"])
+    if cls == "DetuningMap":
+        from pulser.register.weight_maps import DetuningMap
+
+        return DetuningMap(b["coords"], b["weights"], slug=b["slug"])
+    if cls == "Register":
+        return (pulser.Register3D if b["dim"] == 3 else pulser.Register)(b["qubits"])
+    if cls == "NoiseModel":
+        return pulser.NoiseModel(eff_noise_rates=b["rates"], eff_noise_opers=b["opers"])
+    if cls == "Device":
+        from pulser.devices import VirtualDevice
+
+        return VirtualDevice(name="AA", dimensions=2, rydberg_level=60, interaction_coeff_xy=3700.0,
+                             channel_objects=b["chans"], channel_ids=b["ids"], dmm_objects=b["dmms"])
+    from pulser.channels import Rydberg
+    from pulser.channels.eom import RydbergBeam, RydbergEOM
+
+    eom = RydbergEOM(mod_bandwidth=40.0, limiting_beam=RydbergBeam.RED, max_limiting_amp=100.0, intermediate_detuning=1000.0,
+                     controlled_beams=[RydbergBeam[x] for x in b["beams"]] if isinstance(b["beams"][0], str) else b["beams"])
+    return Rydberg("Global", 100.0, 10.0, mod_bandwidth=8.0, propagation_dir=b["dir"], eom_config=eom)
+
+
+def _bump(x, rng):
+    """in-place update of a numeric buffer (list of lists or ndarray): one entry + 0.37"""
+    if isinstance(x, np.ndarray):
+        idx = tuple(rng.randrange(n) for n in x.shape)
+        x[idx] = x[idx] + 0.37
+        return idx
+    i = rng.randrange(len(x))
+    if isinstance(x[i], list):
+        j = rng.randrange(len(x[i]))
+        x[i][j] = x[i][j] + 0.37
+        return (i, j)
+    x[i] = x[i] + 0.37
+    return (i,)
+
+
+def aa_mutate(cls, b, rng):
+    """what a user does between two constructions: update the buffers in place"""
+    if cls == "Config":
+        if b["matrix"] is not None:
+            m = b["matrix"]
+            n = len(m)
+            i, j = 0, n - 1
+            if isinstance(m, np.ndarray):
+                m[i, j] = m[j, i] = m[i, j] + 1.25
+            else:
+                m[i][j] = m[j][i] = m[i][j] + 1.25
+        b["et"][0] = b["et"][0] / 2 if b["et"][0] > 0 else b["et"][0]
+        if len(b["et"]) > 1:
+            b["et"].pop()
+        import pulser.backend as pb
+
+        b["observables"].append(pb.EnergyVariance(tag_suffix="added"))
+        for k, v in b["extra"].items():
+            if isinstance(v, list):
+                v.append(99)
+                for e in v:
+                    if isinstance(e, dict):
+                        for vv in e.values():
+                            if isinstance(vv, list):
+                                vv.append(98)
+            elif isinstance(v, dict):
+                for vv in v.values():
+                    if isinstance(vv, list):
+                        vv[0] = 97
+                v["new"] = 1
+    elif cls == "Observable":
+        b["et"][0] = b["et"][0] / 2 if b["et"][0] > 0 else 0.0
+        if len(b["et"]) > 1:
+            b["et"].pop()
+    elif cls == "StateRepr":
+        k0 = next(iter(b["amps"]))
+        b["amps"][k0] = b["amps"][k0] * 0.5 + 0.125
+        b["amps"][k0[::-1] if k0[::-1] != k0 else b["eig"][0] * len(k0)] = 0.25
+        b["eig"].append("x" if "x" not in b["eig"] else "h")
+    elif cls == "OperatorRepr":
+        for c, t in b["ops"]:
+            for q, inds in t:
+                k0 = next(iter(q))
+                q[k0] = q[k0] * 2 + 1
+                q[b["eig"][0] + b["eig"][-1]] = 0.5
+        b["ops"].append((0.75, []))
+    elif cls in ("Layout", "DetuningMap"):
+        _bump(b["coords"], rng)
+        if cls == "DetuningMap":
+            i = rng.randrange(len(b["weights"]))
+            b["weights"][i] = 0.5 if b["weights"][i] != 0.5 else 0.25
+    elif cls == "Register":
+        q = next(iter(b["qubits"]))
+        b["qubits"][q][0] = b["qubits"][q][0] + 0.37
+    elif cls == "NoiseModel":
+        b["rates"][0] = b["rates"][0] + 0.25
+        o = b["opers"][0]
+        if isinstance(o, np.ndarray):
+            o[0, 1] = o[0, 1] + 1
+        else:
+            o[0][1] = o[0][1] + 1
+    elif cls == "Device":
+        b["chans"].pop()
+        b["ids"].pop()
+        b["dmms"].append(b["dmms"][0])
+    else:
+        b["dir"][0] = b["dir"][0] + 1
+        b["beams"].reverse()
+        b["beams"].append(b["beams"][0]) if len(b["beams"]) == 1 else b["beams"].pop()
+
+
+def aa_snap(cls, o):
+    if cls == "Observable":
+        return snap_observable(o)
+    if cls == "Register":
+        return snap_register(o)
+    if cls == "DetuningMap":
+        return snap_detmap(o)
+    if cls == "Layout":
+        return S.snap_layout(o)
+    return snap_any(o)
+
+
+AA_NAME = dict(Config="EmulationConfig", Layout="RegisterLayout")
+
+
+def run_argalias(case):
+    """Two instances built from the same caller-owned buffers, updated in place
+    in between, must not influence each other: after the second construction
+    the first instance must still equal an instance built from a private deep
+    copy of the original buffers (this also sees lazily evaluated references)."""
+    import copy
+
+    viols = []
+    sp = case["spec"]
+    cls = sp["cls"]
+    name = AA_NAME.get(cls, cls)
+    run = dict(kind="argalias", cls=cls, built=0)
+    rng = random.Random(sp["mut_seed"])
+    try:
+        bufs = aa_buffers(cls, sp["spec"], sp["use_numpy"])
+        ref_bufs = copy.deepcopy(bufs)
+        first = _quiet(aa_build, cls, bufs)
+        ref = _quiet(aa_build, cls, ref_bufs)
+    except Exception as e:  # noqa: BLE001
+        run["invalid"] = f"{type(e).__name__}: {e}"[:300]
+        return run, viols
+    run["built"] = 1
+    if cls == "Register":
+        name = type(first).__name__
+    aa_mutate(cls, bufs, rng)
+    try:
+        _quiet(aa_build, cls, bufs)
+        run["built"] = 2
+    except Exception as e:  # noqa: BLE001
+        run["second_rejected"] = f"{type(e).__name__}: {e}"[:200]
+    a, r = aa_snap(cls, first), aa_snap(cls, ref)
+    seen = set()
+    for p_ in diff_paths(r, a):
+        top = p_.split(".")[0].replace("[]", "")
+        if top in seen:
+            continue
+        seen.add(top)
+        viols.append(
+            Violation(
+                f"arg-alias:{name}:{top}",
+                f"{name} built from caller-owned mutable arguments changed in {p_!r} when the caller updated those "
+                f"arguments in place and built a second instance from them",
+                case,
+            )
+        )
+    # the serialised form must not move either
+    try:
+        from pulser.json.abstract_repr.serializer import AbstractReprEncoder
+
+        if hasattr(first, "_to_abstract_repr") and cls not in ("Channel",):
+            ja = json.loads(json.dumps(first, cls=AbstractReprEncoder))
+            jr = json.loads(json.dumps(ref, cls=AbstractReprEncoder))
+            if ja != jr and not seen:
+                viols.append(Violation(f"arg-alias:{name}:serialised-form", "the JSON of the first instance changed", case))
+    except Exception:  # noqa: BLE001
+        pass
+    return run, viols
+
+
 RUNNERS = dict(
+    argalias=run_argalias,
     device=run_device,
     noise=run_noise,
     simconfig=run_simconfig,
